@@ -286,3 +286,38 @@ def run(ctx: Context) -> None:  # noqa: F811
 
     ctx.rep.rule('C04.R8', 'async tree: every test / suspension / write sequence on a field of a task-shared object is one critical section of an async lock that all writers of the field hold')
     _support.await_atomicity_census(ctx, 'C04.R8')
+
+
+_core_run_r9 = run
+
+
+def run(ctx: Context) -> None:  # noqa: F811
+    _core_run_r9(ctx)
+    from .c07 import locks_for
+
+    rep = ctx.rep
+    rep.rule("C04.R9", "sync tree: the bound `len(connections) <= max_connections` is checked and consumed in ONE critical section - every run of the "
+                       "assignment pass (the only routine that grows the list) holds the pool lock, so two threads cannot both see room for one more")
+    tree = "sync"
+    N = ctx.names(tree)
+    L = locks_for(ctx, tree)
+    pool = N.cls("connection_pool", "AsyncConnectionPool")
+    lock_name = f"{pool.name}._optional_thread_lock"
+    n = 0
+    for f in N.functions():
+        for c in own_nodes(f.node):
+            if isinstance(c, ast.Call) and isinstance(c.func, ast.Attribute) and c.func.attr == "_assign_requests_to_connections":
+                n += 1
+                held = L.must_hold(c, f)
+                ok = lock_name in held
+                rep.ob("C04.R9", fkey(tree, f, f"assignment-pass-under-lock:{_occ9(c, f)}"), ok, where(f, c),
+                       f"the assignment pass runs holding {sorted(held)}" if ok else
+                       f"the assignment pass is called in {f.short} WITHOUT the pool lock `{lock_name}` (held: {sorted(held)}): two threads can each find `len(connections) < max_connections` "
+                       "and both append - the pool exceeds its limit")
+    rep.floor("C04.R9", "calls of the assignment pass (sync)", n, 3)
+
+
+def _occ9(node: ast.AST, f: FuncInfo) -> int:
+    same = [x for x in own_nodes(f.node) if isinstance(x, ast.Call) and isinstance(x.func, ast.Attribute) and x.func.attr == "_assign_requests_to_connections"]
+    same.sort(key=lambda x: (x.lineno, x.col_offset))
+    return next((i for i, x in enumerate(same) if x is node), 0)
